@@ -71,6 +71,10 @@ def make_items(tier, seed):
         ("def oracle_outer(x: Qint[2]) -> Qint[2]:\n    return x + 1\n", 2),
         ("def v(x: Qint[2]) -> Qint[2]:\n    return x + 1\n", 2),
         ("def grover(v: Qint[2]) -> Qint[2]:\n    return v + 1\n", 0),
+        # ... or are the names of builtins the translator knows
+        ("def sum(a: Tuple[Qint[2], Qint[2]]) -> Qint[2]:\n    return a[0] ^ a[1] ^ 1\n", 3),
+        ("def max(a: Tuple[Qint[2], Qint[2]]) -> Qint[2]:\n    return a[0] & a[1]\n", 3),
+
     ]
     for src, y in targets:
         items.append({"ob": "target", "src": src, "y": y})
